@@ -136,6 +136,8 @@ def gen_plan(rng, tier, idx, opts):
             # the stream-variation drivers of the library run their own history of solve / clear / set_precoders /
             # set_receive_filters on the SAME solver object
             ops.append({"op": "stream_search", "how": rng.choice(["greedy", "greedy", "brute"]), "P": gen_P(rng, K)})
+        elif r < 0.855 and kind != "closed":
+            ops.append({"op": "set_max_iter", "v": rng.choice([1, 1, 2, 3, 6])})      # iteration budget changed between two solves
         elif r < 0.87:
             ops.append({"op": "noise", "v": rng.choice([None, 1e-3, 0.1, 1.0]) if kind not in ("mmse", "maxsinr") else rng.choice([1e-3, 0.1, 1.0])})
         else:
@@ -321,6 +323,10 @@ def execute(plan):
                             break
                     if costs:
                         bump(res["probes"], "iterations_monitored", len(costs))
+                elif o == "set_max_iter":
+                    solver.max_iterations = int(op["v"])
+                    log.add(o, op["v"])
+                    continue
                 elif o == "stream_search":
                     if cur["noise"] is None:
                         continue               # the drivers rank solutions by sum capacity, which needs a noise variance
